@@ -537,6 +537,7 @@ impl DhtHandler {
                 .unwrap()
                 .add_nodes(node.clone(), nodes, Tracked(tr));
             let ghost ev1 = tr.ev;
+            assert(node.handle == NodeHandle { id: rsp.id, addr }); // @C03.search_is_told_the_responders_id_and_source_address
 
             match lookup
                 .recv_response(node, &trans_id, rsp, &self.socket, &mut self.timer, Tracked(tr))
